@@ -298,6 +298,30 @@ func (s *Sim) genAsks(appID string) Op {
 		if s.pf.Preemption {
 			a.PreemptOther = r.Bool(0.9)
 		}
+		// directed (C08): another leaf is at or below its guarantee on one type and above it on another one - ask for the
+		// first type only, so that a preemption on behalf of this ask must not touch that leaf
+		if s.pf.Preemption && s.post != nil && app != nil && r.Bool(0.3) {
+			own := s.appQueue(appID)
+		find:
+			for _, path := range sortedKeys(s.post.Queues) {
+				q := s.post.Queues[path]
+				if q == nil || !q.Leaf || path == own || len(q.Guar) < 2 {
+					continue
+				}
+				for _, t := range sortedKeys(q.Guar) {
+					if q.Alloc[t] == 0 || q.Alloc[t] > q.Guar[t] {
+						continue
+					}
+					for _, u := range sortedKeys(q.Guar) {
+						if u != t && q.Alloc[u] > q.Guar[u] {
+							a.Res = Res{t: int64(r.Range(1, 2))}
+							s.probe("directed_ask_single_type_vs_mixed_guarantee")
+							break find
+						}
+					}
+				}
+			}
+		}
 		if r.Bool(0.05) {
 			a.Originator = true
 		}
@@ -445,7 +469,15 @@ func (s *Sim) genOpOf(kind string) (Op, bool) {
 				continue
 			}
 			m := pick(r, cands)
-			return Op{Kind: "release", Key: m.Key, AppID: m.App, Type: "STOPPED_BY_RM"}, true
+			typ := "STOPPED_BY_RM"
+			if s.faultOn("release_any_type") && m.Status == stBound && r.Bool(0.5) {
+				// an unsolicited "confirmation": the shim releases a bound allocation with a type the core uses for
+				// releases of its own (legal on the wire; the pod was lost while the shim thought of a time out)
+				typ = pick(r, []string{"TIMEOUT", "PREEMPTED_BY_SCHEDULER"})
+				s.faults["release_any_type"]++
+				return Op{Kind: "release", Key: m.Key, AppID: m.App, Type: typ, Fault: "release_any_type"}, true
+			}
+			return Op{Kind: "release", Key: m.Key, AppID: m.App, Type: typ}, true
 		case "complete":
 			apps := sh.liveAppIDs()
 			if len(apps) == 0 {
